@@ -193,7 +193,7 @@ func opGuess(r *rand.Rand, n int, tier string, seed int64) {
 		// GOPATHs
 		ngp := r.Intn(4)
 		for g := 0; g < ngp; g++ {
-			lg := fmt.Sprintf("%s/gp%d", base, g)
+			lg := fmt.Sprintf("%s/gp%d%s", base, g, []string{"", "", "-a-much-longer-directory-name", "x"}[r.Intn(4)])
 			rg := fmt.Sprintf("/remote/gopath%d", g)
 			if r.Intn(3) == 0 {
 				rg = lg
